@@ -964,7 +964,7 @@ def _exhaustive_wrapper(wrapper, maxlen):
 def cases(rng, tier):
     quick = tier == "quick"
     maxlen = 6 if quick else 8
-    n_tmpl, n_rand = (300, 300) if quick else (3000, 4000)
+    n_tmpl, n_rand = (250, 250) if quick else (3000, 4000)
     # every guarded method once in every reachable state (one wrapper per method owner)
     seen = set()
     out = []
